@@ -3,6 +3,7 @@ import ast
 from sa.lib import *
 from rules import ledger
 
+TECHNIQUE = "static analysis (ast): forward abstract interpretation of the margin / cash / reference ledgers to polynomials compared with the margin invariant and the sweep's zero-sum equation; valuation formulas by evaluation under assumptions (kind, non-flat); guard and ordering rules on the CFG"
 EXPLANATION = (
     "Decides the structural clauses of C05 with symbolic ledger equations (value-id / polynomial domain, no execution): (S1) the margin left "
     "by marking_to_market equals liquidation price x |position| x multiplier x margin requirement, and the margin left by transact equals "
